@@ -478,7 +478,7 @@ func mailOptsOf(mask int, s string) *smtp.MailOptions {
 		o.Auth = strp(s)
 	}
 	if mask&64 != 0 {
-		o.Body = smtp.BodyBinaryMIME
+		o.Body = []smtp.BodyType{smtp.BodyBinaryMIME, smtp.Body7Bit, smtp.Body8BitMIME}[(mask&63)%3]
 	}
 	return o
 }
@@ -499,6 +499,10 @@ func genCliC15(rng *rand.Rand, thorough bool, emit func(*Sx)) {
 	nk := len(cliExtKeys)
 	one := func(emask, omask int, rmask int) {
 		keys := subsetOf(cliExtKeys, emask)
+		if rng.Intn(2) == 0 {
+			// BINARYMIME licenses BODY=BINARYMIME (swept exhaustively by genCliBody)
+			keys = append(keys, "BINARYMIME")
+		}
 		stream := "220 ready\r\n" + ehloReply(keys) + "250 2.1.0 ok\r\n250 2.1.5 ok\r\n250 2.1.5 ok\r\n"
 		var mo *smtp.MailOptions
 		if omask >= 0 {
@@ -570,6 +574,46 @@ func genCliC15(rng *rand.Rand, thorough bool, emit func(*Sx)) {
 	for r := 0; r < 32; r++ {
 		for _, e := range []int{0, 16, 16 + 8, 64, 64 + 16, 127, 8, rng.Intn(128)} {
 			one(e, rng.Intn(129)-1, r)
+		}
+	}
+}
+
+// MailOptions.Body: every value (unset, the three of RFC 6152 / RFC 3030, wrong case, unknown, hostile)
+// x the four subsets of {8BITMIME, BINARYMIME} advertised, alone and together with the other keys
+// x Body alone / combined with other option fields; plus opts == nil per subset.
+func genCliBody(rng *rand.Rand, thorough bool, emit func(*Sx)) {
+	bodies := []smtp.BodyType{"", smtp.Body7Bit, smtp.Body8BitMIME, smtp.BodyBinaryMIME, "binarymime", "7bit", "8bitmime",
+		"X", "8BIT", "8BITMIME\r\nRSET", " 7BIT", "BINARYMIME ", "7BIT SIZE=1"}
+	omasks := []int{0, 1 | 8, 2, 4, 63}
+	for bmask := 0; bmask < 4; bmask++ {
+		for oi, others := range [][]string{nil, {"SIZE", "REQUIRETLS", "SMTPUTF8", "DSN", "AUTH", "RRVS"}, {"SIZE"}, {"DSN", "CHUNKING"}} {
+			keys := append(subsetOf([]string{"8BITMIME", "BINARYMIME"}, bmask), others...)
+			if oi%2 == 1 {
+				// the extension lines in another order
+				keys = append(append([]string{}, others...), subsetOf([]string{"BINARYMIME", "8BITMIME"}, (bmask>>1)|(bmask&1)<<1)...)
+			}
+			stream := "220 ready\r\n" + ehloReply(keys) + strings.Repeat("250 2.0.0 ok\r\n", 4)
+			run := func(mo *smtp.MailOptions) {
+				cs := cliCase{stream: []byte(stream), focus: "body"}
+				cs.cuts = randCuts(rng, cs.stream)
+				cs.calls = []cliCall{
+					{kind: "mail", s: "from@example.org", mopts: mo, ann: []*Sx{advSx(keys)}},
+					{kind: "rcpt", s: "to@example.org", ann: []*Sx{advSx(keys)}},
+					{kind: "noop"},
+				}
+				emit(runCli(cs))
+			}
+			run(nil)
+			for _, b := range bodies {
+				for _, om := range omasks {
+					if !thorough && om != 0 && len(others) != 6 && om != 63 {
+						continue
+					}
+					mo := mailOptsOf(om, "env id+1")
+					mo.Body = b
+					run(mo)
+				}
+			}
 		}
 	}
 }
@@ -1293,6 +1337,7 @@ func genCliBroken(rng *rand.Rand, thorough bool, emit func(*Sx)) {
 // GenCli: all client families.
 func GenCli(rng *rand.Rand, thorough bool, emit func(*Sx)) {
 	genCliC15(rng, thorough, emit)
+	genCliBody(rng, thorough, emit)
 	genCliHostile(rng, thorough, emit)
 	genCliTxn(rng, thorough, emit)
 	genCliStartTLS(rng, thorough, emit)
